@@ -257,7 +257,7 @@ Lemma pc_struct_layout_facts ms0 :
   ms0 <> [] ->
   fst (fst (pc_struct_layout ms0)) =
     (let ms := pc_partial ms0 false in
-     let bs := snd (pc_walk (hd (mk_pcm 0 1 0 false false false) ms) ms 0) in
+     let bs := snd (pc_walk (hd (mk_pcm 0 1 0 false false false false) ms) ms 0) in
      bs + pc_final_padding (pc_max_align ms) bs)
   /\ snd (fst (pc_struct_layout ms0)) = pc_max_align (pc_partial ms0 false).
 Proof.
